@@ -36,6 +36,23 @@ theorem forwarded_at_most_once (cap : Nat) (hc : 0 < cap) (h : List α) (hw : Wi
 theorem window_of_few_distinct (cap : Nat) (h : List α) (hd : (firsts h).length ≤ cap) : WindowOK cap h := by
   exact windowOK_of_few_distinct cap h hd
 
+/-- No premise on the history at all (any number of outstanding IDs, any repeats, any cache capacity): every listed
+    ID is handed to a worker at least once and nothing that was not listed ever is — the recency cache can only cause
+    a repeat, never a loss. -/
+theorem never_lost_never_invented (cap : Nat) (h : List α) (x : α) : x ∈ spawns cap h ↔ x ∈ h :=
+  mem_spawns cap h x
+
+/-- a repeat immediately after the report itself is always suppressed, for every capacity ≥ 1 and every history -/
+theorem immediate_repeat_suppressed (cap : Nat) (hc : 0 < cap) (h : List α) (x : α) :
+    spawns cap (h ++ [x] ++ [x]) = spawns cap (h ++ [x]) := by
+  rw [spawns_append_singleton, if_pos]
+  rw [Lru.after_append_singleton]
+  unfold Lru.touch
+  rw [if_neg (by omega)]
+  cases cap with
+  | zero => omega
+  | succ n => simp
+
 /-- the window clause is needed: `cap + 1` distinct IDs followed by a repeat of the first
     one forwards it twice (here cap = 2) -/
 theorem dedup_needs_window_counterexample : spawns 2 [1, 2, 3, 1] = [1, 2, 3, 1] := by decide
